@@ -1,4 +1,674 @@
-/- Model for area `block` (stub). -/
+import Astria.Merkle.Model
+/-
+  Model of the block → commitment → proof → receiver chain of astria-core / astria-conductor
+  (properties C07 and C17):
+
+  * `groupAll`/`sortGroups`/`commitments` — `group_rollup_data_submissions_by_rollup_id`, the
+    deposit extension and `sort_unstable_keys` of `SequencerBlockBuilder::try_build` and
+    `generate_rollup_datas_commitment` (crates/astria-sequencer/src/proposal/commitment.rs);
+  * `expand` — the Merkle part of `ExpandedBlockData::new_from_typed_data`;
+  * `tryBuild` — `SequencerBlockBuilder::try_build`;
+  * `toFiltered`, `split` — `SequencerBlock::to_filtered_block`, `split_for_celestia`;
+  * `fullFromRaw`, `filteredFromRaw`, `metaFromRaw`, `blobFromRaw` — the four `try_from_raw`
+    validation functions, in the order the Rust code performs its checks, with its error kinds;
+  * `verifyBlob`, `reconstruct` — `celestia/reconstruct.rs` of the conductor, `verifyMetadata`
+    the hash/chain-id comparison of `celestia/verify.rs`, `convertBlobs` the all-or-nothing
+    list conversion of `celestia/convert.rs`.
+
+  Hash functions are parameters (`Hashes`): `H` is the RFC 6962 triple of astria-merkle, `sha`
+  the plain SHA-256 (`Sha256::digest`).  Proof verification is a parameter too (`Verifier`):
+  `rfcV` is the RFC 6962 specification the C07 theorems are about, `flatV` is the crate's
+  index walk (`Astria.Merkle.Flat`), which can panic on unchecked proofs — every receiver
+  therefore returns an `Outcome`.
+-/
 namespace Astria.Block
+open Astria.Merkle
+
+abbrev Bytes := List UInt8
+
+structure Hashes where
+  H : HashFns Bytes Bytes
+  sha : Bytes → Bytes
+
+/-- All digests are 32 bytes long (a fact about the Rust types `[u8; 32]`, not about security). -/
+structure Hashes.Sized (Hs : Hashes) : Prop where
+  leaf : ∀ x, (Hs.H.leaf x).length = 32
+  node : ∀ a b, (Hs.H.node a b).length = 32
+  empty : Hs.H.empty.length = 32
+  sha : ∀ x, (Hs.sha x).length = 32
+
+abbrev Proof := Flat.Proof Bytes
+
+/-! ## Outcome plumbing -/
+
+/-- Sequencing of computations that may fail with an error or panic. -/
+def andThen {ε α β : Type} (o : Outcome (Except ε α)) (f : α → Outcome (Except ε β)) :
+    Outcome (Except ε β) :=
+  match o with
+  | .panic => .panic
+  | .value (.error e) => .value (.error e)
+  | .value (.ok a) => f a
+
+def liftE {ε α : Type} (e : Except ε α) : Outcome (Except ε α) := .value e
+
+/-- `if !verify(..) { return Err(err) }`. -/
+def guardV {ε : Type} (o : Outcome Bool) (err : ε) : Outcome (Except ε Unit) :=
+  match o with
+  | .panic => .panic
+  | .value true => .value (.ok ())
+  | .value false => .value (.error err)
+
+def mapErr {ε ε' α : Type} (f : ε → ε') (o : Outcome (Except ε α)) : Outcome (Except ε' α) :=
+  match o with
+  | .panic => .panic
+  | .value (.error e) => .value (.error (f e))
+  | .value (.ok a) => .value (.ok a)
+
+/-- `iter.map(f).collect::<Result<Vec<_>, _>>()`. -/
+def mapM' {ε α β : Type} (f : α → Outcome (Except ε β)) : List α → Outcome (Except ε (List β))
+  | [] => .value (.ok [])
+  | a :: rest => andThen (f a) fun b => andThen (mapM' f rest) fun bs => .value (.ok (b :: bs))
+
+/-! ## Merkle proofs on the wire -/
+
+structure RawProof where
+  auditPath : Bytes
+  leafIndex : Nat
+  treeSize : Nat
+  deriving Repr, DecidableEq
+
+def chunks32 : Nat → Bytes → List Bytes
+  | 0, _ => []
+  | f + 1, bs => if bs.isEmpty then [] else bs.take 32 :: chunks32 f (bs.drop 32)
+
+/-- `merkle::Proof::try_from_raw` (= `UncheckedProof::try_into_proof`). -/
+def decodeProof (r : RawProof) : Outcome (Except Flat.ProofError Proof) :=
+  match Flat.checkRaw ⟨r.auditPath.length, r.leafIndex, r.treeSize⟩ with
+  | .panic => .panic
+  | .value (.error e) => .value (.error e)
+  | .value (.ok ()) => .value (.ok ⟨chunks32 r.auditPath.length r.auditPath, r.leafIndex, r.treeSize⟩)
+
+def encodeProof (π : Proof) : RawProof := ⟨π.path.flatten, π.leafIndex, π.treeSize⟩
+
+/-- Proof verification: proof, *leaf hash*, root. -/
+abbrev Verifier := Proof → Bytes → Bytes → Outcome Bool
+
+/-- Number of leaves of a flat tree with `treeSize` nodes. -/
+def leavesOf (treeSize : Nat) : Nat := (treeSize + 1) / 2
+
+def rfcVerify (H : HashFns Bytes Bytes) (π : Proof) (leafHash root : Bytes) : Bool :=
+  Rfc.rootFromPath H (leavesOf π.treeSize) π.leafIndex leafHash π.path == some root
+
+/-- RFC 6962 audit-path verification (the specification). -/
+def rfcV (Hs : Hashes) : Verifier := fun π lh r => .value (rfcVerify Hs.H π lh r)
+
+/-- astria-merkle's `reconstruct_root_with_leaf_hash` compared with the root. -/
+def flatV (Hs : Hashes) : Verifier := fun π lh r =>
+  match π.reconstruct Hs.H lh with
+  | .panic => .panic
+  | .value x => .value (x == r)
+
+/-- `Tree::from_leaves(ls).root()`. -/
+def treeRoot (Hs : Hashes) (ls : List Bytes) : Bytes := Rfc.mth Hs.H ls
+
+/-- `Tree::from_leaves(ls).construct_proof(i)` for `i < ls.length`. -/
+def treeProof (Hs : Hashes) (ls : List Bytes) (i : Nat) : Proof :=
+  ⟨Rfc.path Hs.H i ls, i, 2 * ls.length - 1⟩
+
+/-! ## Grouping rollup data -/
+
+/-- Lexicographic order on byte strings (`Ord` of `[u8; 32]`). -/
+def bytesLt : Bytes → Bytes → Bool
+  | [], [] => false
+  | [], _ :: _ => true
+  | _ :: _, [] => false
+  | a :: as, b :: bs => a < b || (a == b && bytesLt as bs)
+
+abbrev Groups := List (Bytes × List Bytes)
+
+/-- `map.entry(id).or_default().extend(items)` on an `IndexMap`. -/
+def insertGroup (m : Groups) (id : Bytes) (items : List Bytes) : Groups :=
+  match m with
+  | [] => [(id, items)]
+  | (k, v) :: rest => if k = id then (k, v ++ items) :: rest else (k, v) :: insertGroup rest id items
+
+def insertSorted (g : Bytes × List Bytes) : Groups → Groups
+  | [] => [g]
+  | h :: rest => if bytesLt g.1 h.1 then g :: h :: rest else h :: insertSorted g rest
+
+/-- `sort_unstable_keys` (keys of a map are distinct, so the result is determined). -/
+def sortGroups : Groups → Groups
+  | [] => []
+  | g :: rest => insertSorted g (sortGroups rest)
+
+def varint : Nat → Nat → Bytes
+  | 0, _ => [0]
+  | f + 1, n => if n < 128 then [UInt8.ofNat n] else UInt8.ofNat (n % 128 + 128) :: varint f (n / 128)
+
+/-- `RollupData::SequencedData(d).into_raw().encode_to_vec()`: field 1, wire type 2. -/
+def encSequenced (d : Bytes) : Bytes := 0x0a :: (varint 10 d.length ++ d)
+
+/-- Submissions in block order, then the deposit map (already protobuf-encoded deposits). -/
+def groupAll (subs : List (Bytes × Bytes)) (deps : List (Bytes × List Bytes)) : Groups :=
+  let m1 := subs.foldl (fun m s => insertGroup m s.1 [encSequenced s.2]) []
+  deps.foldl (fun m d => insertGroup m d.1 d.2) m1
+
+def rollupLeaf (Hs : Hashes) (id : Bytes) (txs : List Bytes) : Bytes := id ++ treeRoot Hs txs
+
+def rollupLeaves (Hs : Hashes) (g : Groups) : List Bytes := g.map fun e => rollupLeaf Hs e.1 e.2
+
+/-- `generate_rollup_datas_commitment`: (rollup datas root, rollup ids root). -/
+def commitments (Hs : Hashes) (subs : List (Bytes × Bytes)) (deps : List (Bytes × List Bytes)) :
+    Bytes × Bytes :=
+  let g := sortGroups (groupAll subs deps)
+  (treeRoot Hs (rollupLeaves Hs g), treeRoot Hs (g.map (·.1)))
+
+/-! ## Blocks -/
+
+structure HeaderRaw where
+  chainId : Bytes                 -- UTF-8 of the string
+  height : Nat                    -- u64
+  time : Option (Int × Int)       -- (seconds : i64, nanos : i32)
+  txsRoot : Bytes
+  dataHash : Bytes
+  proposer : Bytes
+  deriving Repr, DecidableEq
+
+structure Header where
+  chainId : Bytes
+  height : Nat
+  secs : Int
+  nanos : Nat
+  txsRoot : Bytes
+  dataHash : Bytes
+  proposer : Bytes
+  deriving Repr, DecidableEq
+
+def Header.toRaw (h : Header) : HeaderRaw :=
+  ⟨h.chainId, h.height, some (h.secs, (h.nanos : Int)), h.txsRoot, h.dataHash, h.proposer⟩
+
+inductive HeaderErr where
+  | invalidChainId | invalidHeight | timeNotSet | time | rootLength | proposer
+  deriving Repr, DecidableEq
+
+def chainIdCharOk (b : UInt8) : Bool :=
+  (97 ≤ b && b ≤ 122) || (65 ≤ b && b ≤ 90) || (48 ≤ b && b ≤ 57) || b == 45 || b == 95 || b == 46
+
+/-- `SequencerBlockHeader::try_from_raw`. -/
+def decodeHeader (r : HeaderRaw) : Except HeaderErr Header :=
+  if r.chainId.isEmpty || r.chainId.length > 50 || !(r.chainId.all chainIdCharOk) then .error .invalidChainId
+  else if r.height ≥ 2 ^ 63 then .error .invalidHeight
+  else match r.time with
+    | none => .error .timeNotSet
+    | some (s, n) =>
+      if n < 0 ∨ n > 999999999 ∨ s < -62135596800 ∨ s > 253402300799 then .error .time
+      else if r.txsRoot.length ≠ 32 then .error .rootLength
+      else if r.dataHash.length ≠ 32 then .error .rootLength
+      else if r.proposer.length ≠ 20 then .error .proposer
+      else .ok ⟨r.chainId, r.height, s, n.toNat, r.txsRoot, r.dataHash, r.proposer⟩
+
+structure RtRaw where
+  id : Option Bytes
+  txs : List Bytes
+  proof : Option RawProof
+  deriving Repr, DecidableEq
+
+/-- `RollupTransactions`. -/
+structure Rt where
+  id : Bytes
+  txs : List Bytes
+  proof : Proof
+  deriving Repr, DecidableEq
+
+def Rt.toRaw (r : Rt) : RtRaw := ⟨some r.id, r.txs, some (encodeProof r.proof)⟩
+
+inductive RtErr where
+  | idNotSet | idLength | proofNotSet | proof (e : Flat.ProofError)
+  deriving Repr, DecidableEq
+
+/-- `RollupTransactions::try_from_raw`. -/
+def decodeRt (r : RtRaw) : Outcome (Except RtErr Rt) :=
+  match r.id with
+  | none => .value (.error .idNotSet)
+  | some id =>
+    if id.length ≠ 32 then .value (.error .idLength)
+    else match r.proof with
+      | none => .value (.error .proofNotSet)
+      | some p => andThen (mapErr RtErr.proof (decodeProof p)) fun π => .value (.ok ⟨id, r.txs, π⟩)
+
+/-- Outcome of decoding the extended-commit-info bytes (prost + `try_from_raw`): an oracle. -/
+inductive EciCheck where
+  | ok | decode | invalid
+  deriving Repr, DecidableEq
+
+structure EciRaw where
+  info : Bytes
+  proof : Option RawProof
+  deriving Repr, DecidableEq
+
+structure Eci where
+  info : Bytes
+  proof : Proof
+  deriving Repr, DecidableEq
+
+def Eci.toRaw (e : Eci) : EciRaw := ⟨e.info, some (encodeProof e.proof)⟩
+
+inductive EciErr where
+  | proofNotSet | proof (e : Flat.ProofError) | notInBlock | decode | invalid
+  deriving Repr, DecidableEq
+
+/-- What the receivers are parametric in. -/
+structure Ctx where
+  Hs : Hashes
+  V : Verifier
+  eciOk : Bytes → EciCheck
+
+def rfcCtx (Hs : Hashes) (eciOk : Bytes → EciCheck) : Ctx := ⟨Hs, rfcV Hs, eciOk⟩
+def flatCtx (Hs : Hashes) (eciOk : Bytes → EciCheck) : Ctx := ⟨Hs, flatV Hs, eciOk⟩
+
+/-- `proof.verify(leaf, root)`: hashes the leaf first. -/
+def verifyLeaf (c : Ctx) (π : Proof) (leaf root : Bytes) : Outcome Bool := c.V π (c.Hs.H.leaf leaf) root
+
+/-- `ExtendedCommitInfoWithProof::try_from_raw(raw, data_hash)`. -/
+def decodeEci (c : Ctx) (dataHash : Bytes) (r : EciRaw) : Outcome (Except EciErr Eci) :=
+  match r.proof with
+  | none => .value (.error .proofNotSet)
+  | some p =>
+    andThen (mapErr EciErr.proof (decodeProof p)) fun π =>
+    andThen (guardV (verifyLeaf c π (c.Hs.sha r.info) dataHash) EciErr.notInBlock) fun _ =>
+    match c.eciOk r.info with
+    | .decode => .value (.error .decode)
+    | .invalid => .value (.error .invalid)
+    | .ok => .value (.ok ⟨r.info, π⟩)
+
+def decodeEciOpt (c : Ctx) (dataHash : Bytes) : Option EciRaw → Outcome (Except EciErr (Option Eci))
+  | none => .value (.ok none)
+  | some r => andThen (decodeEci c dataHash r) fun e => .value (.ok (some e))
+
+/-- `IndexMap::insert`: replaces the value of an existing key in place. -/
+def imInsert (m : List Rt) (r : Rt) : List Rt :=
+  match m with
+  | [] => [r]
+  | x :: xs => if x.id = r.id then r :: xs else x :: imInsert xs r
+
+/-- `iter.collect::<IndexMap<_, _>>()`. -/
+def imCollect (l : List Rt) : List Rt := l.foldl imInsert []
+
+structure BlockRaw where
+  blockHash : Bytes
+  header : Option HeaderRaw
+  rollups : List RtRaw
+  txsProof : Option RawProof
+  idsProof : Option RawProof
+  uch : List Bytes
+  eci : Option EciRaw
+  deriving Repr, DecidableEq
+
+/-- `SequencerBlock`. -/
+structure Block where
+  blockHash : Bytes
+  header : Header
+  rollups : List Rt
+  txsProof : Proof
+  idsProof : Proof
+  uch : List Bytes
+  eci : Option Eci
+  deriving Repr, DecidableEq
+
+def Block.toRaw (b : Block) : BlockRaw :=
+  ⟨b.blockHash, some b.header.toRaw, b.rollups.map Rt.toRaw, some (encodeProof b.txsProof),
+   some (encodeProof b.idsProof), b.uch, b.eci.map Eci.toRaw⟩
+
+def Block.ids (b : Block) : List Bytes := b.rollups.map (·.id)
+def Block.content (b : Block) : List (Bytes × List Bytes) := b.rollups.map fun r => (r.id, r.txs)
+
+/-- The error kinds of `SequencerBlockError`, `FilteredSequencerBlockError`,
+    `SubmittedMetadataError`, `SubmittedRollupDataError` (one type; each receiver uses a subset). -/
+inductive Err where
+  | blockHash
+  | fieldNotSet (f : String)
+  | txsProof (e : Flat.ProofError)
+  | idsProof (e : Flat.ProofError)
+  | header (e : HeaderErr)
+  | rollupTxs (e : RtErr)
+  | rollupId                         -- an entry of `all_rollup_ids` / `rollup_ids` / blob id
+  | invalidTxsRoot                   -- header root not under data_hash
+  | txsNotInBlock                    -- recomputed rollup tree not under data_hash
+  | txsForIdNotInBlock (id : Bytes)  -- filtered block: one rollup's proof
+  | idsNotInBlock
+  | uch
+  | eci (e : EciErr)
+  | proof (e : Flat.ProofError)      -- rollup blob proof
+  deriving Repr, DecidableEq
+
+def decodeUch (l : List Bytes) : Except Err (List Bytes) :=
+  if l.all (fun h => h.length == 32) then .ok l else .error .uch
+
+def optField {α : Type} (o : Option α) (name : String) : Outcome (Except Err α) :=
+  match o with
+  | none => .value (.error (.fieldNotSet name))
+  | some a => .value (.ok a)
+
+/-- `are_rollup_txs_included`. -/
+def txsIncluded (c : Ctx) (rollups : List Rt) (π : Proof) (dataHash : Bytes) : Outcome Bool :=
+  verifyLeaf c π (c.Hs.sha (treeRoot c.Hs (rollups.map fun r => rollupLeaf c.Hs r.id r.txs))) dataHash
+
+/-- `are_rollup_ids_included`. -/
+def idsIncluded (c : Ctx) (ids : List Bytes) (π : Proof) (dataHash : Bytes) : Outcome Bool :=
+  verifyLeaf c π (c.Hs.sha (treeRoot c.Hs ids)) dataHash
+
+/-- `do_rollup_transactions_match_root` / `verify_rollup_blob_against_sequencer_blob`. -/
+def rtMatchesRoot (c : Ctx) (id : Bytes) (txs : List Bytes) (π : Proof) (root : Bytes) : Outcome Bool :=
+  verifyLeaf c π (rollupLeaf c.Hs id txs) root
+
+/-- `SequencerBlock::try_from_raw`. -/
+def fullFromRaw (c : Ctx) (r : BlockRaw) : Outcome (Except Err Block) :=
+  andThen (liftE (if r.blockHash.length = 32 then .ok r.blockHash else .error Err.blockHash)) fun bh =>
+  andThen (optField r.txsProof "rollup_transactions_proof") fun rtp =>
+  andThen (mapErr Err.txsProof (decodeProof rtp)) fun txsProof =>
+  andThen (optField r.idsProof "rollup_ids_proof") fun rip =>
+  andThen (mapErr Err.idsProof (decodeProof rip)) fun idsProof =>
+  andThen (optField r.header "header") fun rh =>
+  andThen (liftE ((decodeHeader rh).mapError Err.header)) fun header =>
+  andThen (mapErr Err.rollupTxs (mapM' decodeRt r.rollups)) fun rts =>
+  let rollups := imCollect rts
+  andThen (guardV (verifyLeaf c txsProof (c.Hs.sha header.txsRoot) header.dataHash) Err.invalidTxsRoot) fun _ =>
+  andThen (guardV (txsIncluded c rollups txsProof header.dataHash) Err.txsNotInBlock) fun _ =>
+  andThen (guardV (idsIncluded c (rollups.map (·.id)) idsProof header.dataHash) Err.idsNotInBlock) fun _ =>
+  andThen (liftE (decodeUch r.uch)) fun uch =>
+  andThen (mapErr Err.eci (decodeEciOpt c header.dataHash r.eci)) fun eci =>
+  .value (.ok ⟨bh, header, rollups, txsProof, idsProof, uch, eci⟩)
+
+/-! ### Filtered block -/
+
+structure FilteredRaw where
+  blockHash : Bytes
+  header : Option HeaderRaw
+  rollups : List RtRaw
+  txsProof : Option RawProof
+  allIds : List Bytes
+  idsProof : Option RawProof
+  uch : List Bytes
+  eci : Option EciRaw
+  deriving Repr, DecidableEq
+
+structure Filtered where
+  blockHash : Bytes
+  header : Header
+  rollups : List Rt
+  txsProof : Proof
+  allIds : List Bytes
+  idsProof : Proof
+  uch : List Bytes
+  eci : Option Eci
+  deriving Repr, DecidableEq
+
+def Filtered.toRaw (b : Filtered) : FilteredRaw :=
+  ⟨b.blockHash, some b.header.toRaw, b.rollups.map Rt.toRaw, some (encodeProof b.txsProof), b.allIds,
+   some (encodeProof b.idsProof), b.uch, b.eci.map Eci.toRaw⟩
+
+def Filtered.content (b : Filtered) : List (Bytes × List Bytes) := b.rollups.map fun r => (r.id, r.txs)
+
+def decodeIds (l : List Bytes) : Except Err (List Bytes) :=
+  if l.all (fun h => h.length == 32) then .ok l else .error .rollupId
+
+/-- The `for rollup_transactions in rollup_transactions.values()` loop. -/
+def checkRts (c : Ctx) (root : Bytes) : List Rt → Outcome (Except Err Unit)
+  | [] => .value (.ok ())
+  | r :: rest =>
+    andThen (guardV (rtMatchesRoot c r.id r.txs r.proof root) (Err.txsForIdNotInBlock r.id)) fun _ =>
+    checkRts c root rest
+
+/-- `FilteredSequencerBlock::try_from_raw`. -/
+def filteredFromRaw (c : Ctx) (r : FilteredRaw) : Outcome (Except Err Filtered) :=
+  andThen (liftE (if r.blockHash.length = 32 then .ok r.blockHash else .error Err.blockHash)) fun bh =>
+  andThen (optField r.txsProof "rollup_transactions_proof") fun rtp =>
+  andThen (mapErr Err.txsProof (decodeProof rtp)) fun txsProof =>
+  andThen (optField r.idsProof "rollup_ids_proof") fun rip =>
+  andThen (mapErr Err.idsProof (decodeProof rip)) fun idsProof =>
+  andThen (optField r.header "header") fun rh =>
+  andThen (liftE ((decodeHeader rh).mapError Err.header)) fun header =>
+  andThen (mapErr Err.rollupTxs (mapM' decodeRt r.rollups)) fun rts =>
+  let rollups := imCollect rts
+  andThen (liftE (decodeIds r.allIds)) fun allIds =>
+  andThen (guardV (verifyLeaf c txsProof (c.Hs.sha header.txsRoot) header.dataHash) Err.txsNotInBlock) fun _ =>
+  andThen (checkRts c header.txsRoot rollups) fun _ =>
+  andThen (guardV (idsIncluded c allIds idsProof header.dataHash) Err.idsNotInBlock) fun _ =>
+  andThen (liftE (decodeUch r.uch)) fun uch =>
+  andThen (mapErr Err.eci (decodeEciOpt c header.dataHash r.eci)) fun eci =>
+  .value (.ok ⟨bh, header, rollups, txsProof, allIds, idsProof, uch, eci⟩)
+
+/-- `SequencerBlock::to_filtered_block(ids)`. -/
+def toFiltered (b : Block) (ids : List Bytes) : Filtered :=
+  let picked := ids.foldl (fun acc id =>
+    match b.rollups.find? (fun r => r.id = id) with
+    | some r => imInsert acc r
+    | none => acc) []
+  ⟨b.blockHash, b.header, picked, b.txsProof, b.ids, b.idsProof, b.uch, b.eci⟩
+
+/-! ### Celestia form -/
+
+structure MetaRaw where
+  blockHash : Bytes
+  header : Option HeaderRaw
+  ids : List Bytes
+  txsProof : Option RawProof
+  idsProof : Option RawProof
+  uch : List Bytes
+  eci : Option EciRaw
+  deriving Repr, DecidableEq
+
+/-- `SubmittedMetadata`. -/
+structure Meta where
+  blockHash : Bytes
+  header : Header
+  ids : List Bytes
+  txsProof : Proof
+  idsProof : Proof
+  uch : List Bytes
+  eci : Option Eci
+  deriving Repr, DecidableEq
+
+def Meta.toRaw (m : Meta) : MetaRaw :=
+  ⟨m.blockHash, some m.header.toRaw, m.ids, some (encodeProof m.txsProof), some (encodeProof m.idsProof),
+   m.uch, m.eci.map Eci.toRaw⟩
+
+/-- `SubmittedMetadata::try_from_raw` = `UncheckedSubmittedMetadata::try_from_raw` followed by
+    `SubmittedMetadata::try_from_unchecked`. -/
+def metaFromRaw (c : Ctx) (r : MetaRaw) : Outcome (Except Err Meta) :=
+  andThen (optField r.header "header") fun rh =>
+  andThen (liftE ((decodeHeader rh).mapError Err.header)) fun header =>
+  andThen (liftE (decodeIds r.ids)) fun ids =>
+  andThen (optField r.txsProof "rollup_transactions_proof") fun rtp =>
+  andThen (mapErr Err.txsProof (decodeProof rtp)) fun txsProof =>
+  andThen (optField r.idsProof "rollup_ids_proof") fun rip =>
+  andThen (mapErr Err.idsProof (decodeProof rip)) fun idsProof =>
+  andThen (liftE (if r.blockHash.length = 32 then .ok r.blockHash else .error Err.blockHash)) fun bh =>
+  andThen (liftE (decodeUch r.uch)) fun uch =>
+  andThen (mapErr Err.eci (decodeEciOpt c header.dataHash r.eci)) fun eci =>
+  andThen (guardV (verifyLeaf c txsProof (c.Hs.sha header.txsRoot) header.dataHash) Err.txsNotInBlock) fun _ =>
+  andThen (guardV (idsIncluded c ids idsProof header.dataHash) Err.idsNotInBlock) fun _ =>
+  .value (.ok ⟨bh, header, ids, txsProof, idsProof, uch, eci⟩)
+
+structure BlobRaw where
+  blockHash : Bytes
+  id : Option Bytes
+  txs : List Bytes
+  proof : Option RawProof
+  deriving Repr, DecidableEq
+
+/-- `SubmittedRollupData`. -/
+structure Blob where
+  blockHash : Bytes
+  id : Bytes
+  txs : List Bytes
+  proof : Proof
+  deriving Repr, DecidableEq
+
+def Blob.toRaw (b : Blob) : BlobRaw := ⟨b.blockHash, some b.id, b.txs, some (encodeProof b.proof)⟩
+
+/-- `SubmittedRollupData::try_from_raw`. -/
+def blobFromRaw (r : BlobRaw) : Outcome (Except Err Blob) :=
+  andThen (optField r.id "rollup_id") fun id =>
+  andThen (liftE (if id.length = 32 then .ok id else .error Err.rollupId)) fun id =>
+  andThen (liftE (if r.blockHash.length = 32 then .ok r.blockHash else .error Err.blockHash)) fun bh =>
+  andThen (optField r.proof "proof") fun rp =>
+  andThen (mapErr Err.proof (decodeProof rp)) fun π =>
+  .value (.ok ⟨bh, id, r.txs, π⟩)
+
+/-- `SequencerBlock::split_for_celestia`. -/
+def split (b : Block) : Meta × List Blob :=
+  (⟨b.blockHash, b.header, b.ids, b.txsProof, b.idsProof, b.uch, b.eci⟩,
+   b.rollups.map fun r => ⟨b.blockHash, r.id, r.txs, r.proof⟩)
+
+/-! ## Building a block -/
+
+structure BuildInput where
+  blockHash : Bytes
+  chainId : Bytes
+  height : Nat
+  secs : Int
+  nanos : Nat
+  proposer : Bytes
+  /-- rollup data submissions `(rollup id, payload)` of the executed transactions, in block order -/
+  subs : List (Bytes × Bytes)
+  /-- the deposit map `(rollup id, protobuf-encoded deposits in event order)` -/
+  deps : List (Bytes × List Bytes)
+  /-- the two commitments found at the head of `block.data` -/
+  txsRoot : Bytes
+  idsRoot : Bytes
+  uch : List Bytes
+  /-- the encoded extended commit info item of `block.data`, if enabled -/
+  eci : Option Bytes
+  /-- the remaining items of `block.data` (user-submitted transactions) -/
+  userTxs : List Bytes
+  deriving Repr, DecidableEq
+
+/-- The leaves of the tree whose root is the block's `data_hash`
+    (`ExpandedBlockData::new_from_typed_data`). -/
+def dataLeaves (Hs : Hashes) (inp : BuildInput) : List Bytes :=
+  [Hs.sha inp.txsRoot, Hs.sha inp.idsRoot] ++ (inp.eci.toList.map Hs.sha) ++ inp.userTxs.map Hs.sha
+
+inductive BuildErr where
+  | idsRootMismatch | txsRootMismatch
+  deriving Repr, DecidableEq
+
+def mkRts (Hs : Hashes) (leaves : List Bytes) : Nat → Groups → List Rt
+  | _, [] => []
+  | i, (id, txs) :: rest => ⟨id, txs, treeProof Hs leaves i⟩ :: mkRts Hs leaves (i + 1) rest
+
+/-- `SequencerBlockBuilder::try_build` on top of `ExpandedBlockData::new_from_typed_data`. -/
+def tryBuild (Hs : Hashes) (inp : BuildInput) : Except BuildErr Block :=
+  let dl := dataLeaves Hs inp
+  let g := sortGroups (groupAll inp.subs inp.deps)
+  if inp.idsRoot ≠ treeRoot Hs (g.map (·.1)) then .error .idsRootMismatch
+  else
+    let leaves := rollupLeaves Hs g
+    if inp.txsRoot ≠ treeRoot Hs leaves then .error .txsRootMismatch
+    else .ok {
+      blockHash := inp.blockHash
+      header := ⟨inp.chainId, inp.height, inp.secs, inp.nanos, inp.txsRoot, treeRoot Hs dl, inp.proposer⟩
+      rollups := mkRts Hs leaves 0 g
+      txsProof := treeProof Hs dl 0
+      idsProof := treeProof Hs dl 1
+      uch := inp.uch
+      eci := inp.eci.map fun e => ⟨e, treeProof Hs dl 2⟩ }
+
+/-- A proposer that computes the commitments itself. -/
+def honest (Hs : Hashes) (inp : BuildInput) : BuildInput :=
+  { inp with txsRoot := (commitments Hs inp.subs inp.deps).1, idsRoot := (commitments Hs inp.subs inp.deps).2 }
+
+/-! ## Conductor: convert, verify, reconstruct -/
+
+/-- `ConvertedBlobs::extend_from_*_list_if_well_formed`: one malformed entry drops the whole list.
+    `none` = the blob did not decompress / decode as a list (dropped as a whole as well). -/
+def convertList {ρ α : Type} (f : ρ → Outcome (Except Err α)) (blob : Option (List ρ)) : Outcome (List α) :=
+  match blob with
+  | none => .value []
+  | some entries =>
+    match mapM' f entries with
+    | .panic => .panic
+    | .value (.error _) => .value []
+    | .value (.ok l) => .value l
+
+def convertAll {ρ α : Type} (f : ρ → Outcome (Except Err α)) : List (Option (List ρ)) → Outcome (List α)
+  | [] => .value []
+  | b :: rest =>
+    match convertList f b, convertAll f rest with
+    | .value l, .value ls => .value (l ++ ls)
+    | _, _ => .panic
+
+/-- What the conductor learned from the sequencer for a height (after the quorum check, C09). -/
+structure Commit where
+  chainId : Bytes
+  blockHash : Bytes
+  deriving Repr, DecidableEq
+
+structure ConductorCfg where
+  rollupId : Bytes
+  nextFirmHeight : Nat
+  commits : Nat → Option Commit
+
+/-- `verify_metadata` + `BlobVerifier::verify_metadata`: headers below the next expected firm
+    height are dropped, so are those without a verifiable commit, with another chain id or
+    another block hash.  Result keyed by block hash (the first one wins here; the real
+    `HashMap::insert` order is scheduling dependent). -/
+def verifyMetas (cfg : ConductorCfg) (metas : List Meta) : List Meta :=
+  metas.foldl (fun acc m =>
+    if m.header.height < cfg.nextFirmHeight then acc
+    else match cfg.commits m.header.height with
+      | none => acc
+      | some cm =>
+        if cm.chainId ≠ m.header.chainId then acc
+        else if cm.blockHash ≠ m.blockHash then acc
+        else if acc.any (fun x => x.blockHash = m.blockHash) then acc
+        else acc ++ [m]) []
+
+/-- `verify_rollup_blob_against_sequencer_blob`. -/
+def verifyBlob (c : Ctx) (blob : Blob) (m : Meta) : Outcome Bool :=
+  rtMatchesRoot c blob.id blob.txs blob.proof m.header.txsRoot
+
+structure Reconstructed where
+  blockHash : Bytes
+  header : Header
+  txs : List Bytes
+  deriving Repr, DecidableEq
+
+def removeMeta (hs : List Meta) (h : Bytes) : List Meta := hs.filter (fun m => m.blockHash ≠ h)
+
+/-- The first loop of `reconstruct_blocks_from_verified_blobs`: match rollup blobs to headers.
+    `checkId = false` is the code as it is; `checkId = true` additionally requires the blob's
+    rollup id to be the conductor's (the repair proposed for DESIGN §7 F10). -/
+def matchBlobs (c : Ctx) (checkId : Bool) (rollupId : Bytes) :
+    List Blob → List Meta → Outcome (List Reconstructed × List Meta)
+  | [], hs => .value ([], hs)
+  | b :: rest, hs =>
+    if checkId && b.id ≠ rollupId then matchBlobs c checkId rollupId rest hs
+    else match hs.find? (fun m => m.blockHash = b.blockHash) with
+      | none => matchBlobs c checkId rollupId rest hs
+      | some m =>
+        match verifyBlob c b m with
+        | .panic => .panic
+        | .value false => matchBlobs c checkId rollupId rest hs
+        | .value true =>
+          match matchBlobs c checkId rollupId rest (removeMeta hs b.blockHash) with
+          | .panic => .panic
+          | .value (out, left) => .value (⟨m.blockHash, m.header, b.txs⟩ :: out, left)
+
+/-- `reconstruct_blocks_from_verified_blobs`. -/
+def reconstruct (c : Ctx) (checkId : Bool) (rollupId : Bytes) (hs : List Meta) (blobs : List Blob) :
+    Outcome (List Reconstructed) :=
+  match matchBlobs c checkId rollupId blobs hs with
+  | .panic => .panic
+  | .value (out, left) =>
+    .value (out ++ (left.filter (fun m => !m.ids.contains rollupId)).map fun m => ⟨m.blockHash, m.header, []⟩)
+
+/-- One Celestia height through the conductor: decode → verify metadata → reconstruct. -/
+def conductor (c : Ctx) (checkId : Bool) (cfg : ConductorCfg)
+    (metaBlobs : List (Option (List MetaRaw))) (rollupBlobs : List (Option (List BlobRaw))) :
+    Outcome (List Reconstructed) :=
+  match convertAll (metaFromRaw c) metaBlobs, convertAll blobFromRaw rollupBlobs with
+  | .value ms, .value bs => reconstruct c checkId cfg.rollupId (verifyMetas cfg ms) bs
+  | _, _ => .panic
 
 end Astria.Block
